@@ -39,7 +39,7 @@ Max(S) == CHOOSE x \in S : \A y \in S : y <= x
 VRank(c, v) == IF v = Absent THEN 0 ELSE CHOOSE j \in DOMAIN VOrder[c] : VOrder[c][j] = v
 
 VARIABLES
-    deltas,   \* sequence; id = index: [elems, tombs, prio, parents, by]
+    deltas,   \* sequence; id = index: [elems, tombs, prio, parents]
     seen,     \* replica -> set of delta ids merged there
     elemsR,   \* replica -> set of [c, id]   (/s/<key>/<id>)
     tombsR,   \* replica -> set of [c, id]   (/t/<key>/<id>)
@@ -101,14 +101,20 @@ Init ==
     /\ reg = [r \in REPS |-> [c \in CIDS |-> [v |-> Absent, p |-> 0]]]
     /\ conn = {} /\ fired = <<>> /\ last = [k |-> "init"]
 
-NewDelta(r, es, ts) == [elems |-> es, tombs |-> ts, prio |-> Height(r) + 1, parents |-> Heads(r), by |-> r]
+NewDelta(r, es, ts) == [elems |-> es, tombs |-> ts, prio |-> Height(r) + 1, parents |-> Heads(r)]
+
+\* A delta is a content-addressed DAG node: two replicas that build the same delta (same elements,
+\* tombstones, priority and parents - e.g. the same first pin on two fresh replicas) build the SAME
+\* block, hence the same element id.
+IdOf(d) == IF \E j \in DOMAIN deltas : deltas[j] = d THEN CHOOSE j \in DOMAIN deltas : deltas[j] = d
+           ELSE Len(deltas) + 1
+Publish(r, d) == /\ deltas' = IF IdOf(d) <= Len(deltas) THEN deltas ELSE Append(deltas, d)
+                 /\ ApplyMerge(r, d, IdOf(d))
 
 (* LogPin without batching: Datastore.Put -> set.Add -> publish -> addDAGNode -> processNode *)
 LocalPin(r, c, v) ==
     /\ Idle(r)
-    /\ LET d == NewDelta(r, <<[c |-> c, v |-> v]>>, {}) id == Len(deltas) + 1 IN
-         /\ deltas' = Append(deltas, d)
-         /\ ApplyMerge(r, d, id)
+    /\ Publish(r, NewDelta(r, <<[c |-> c, v |-> v]>>, {}))
     /\ last' = [k |-> "pin", r |-> r, c |-> c, v |-> v]
     /\ UNCHANGED conn
 
@@ -118,9 +124,7 @@ LocalUnpin(r, c) ==
     /\ Idle(r)
     /\ LET ts == {e \in elemsR[r] : e.c = c /\ e \notin tombsR[r]} IN
          IF ts = {} THEN UNCHANGED <<deltas, seen, elemsR, tombsR, reg>> /\ fired' = <<>>
-         ELSE LET d == NewDelta(r, <<>>, ts) id == Len(deltas) + 1 IN
-                /\ deltas' = Append(deltas, d)
-                /\ ApplyMerge(r, d, id)
+         ELSE Publish(r, NewDelta(r, <<>>, ts))
     /\ last' = [k |-> "unpin", r |-> r, c |-> c, v |-> Absent]
     /\ UNCHANGED conn
 
@@ -136,9 +140,7 @@ BatchDelta(r, ops, es, ts) ==
                          ts \cup {e \in elemsR[r] : e.c = o.c /\ e \notin tombsR[r]})
 LocalBatch(r, ops) ==
     /\ Idle(r)
-    /\ LET b == BatchDelta(r, ops, <<>>, {}) d == NewDelta(r, b.elems, b.tombs) id == Len(deltas) + 1 IN
-         /\ deltas' = Append(deltas, d)
-         /\ ApplyMerge(r, d, id)
+    /\ LET b == BatchDelta(r, ops, <<>>, {}) IN Publish(r, NewDelta(r, b.elems, b.tombs))
     /\ last' = [k |-> "batch", r |-> r, ops |-> ops]
     /\ UNCHANGED conn
 
